@@ -112,6 +112,16 @@ pub open spec fn buckets_ok(m: Map<i16, Vec<ElementKey>>, es: Seq<Element>) -> b
     &&& forall|n: i16, q: int| m.dom().contains(n) && 0 <= q < m[n]@.len() ==> (#[trigger] m[n]@[q]).idx < es.len() && knum(es[m[n]@[q].idx as int].layer) == n
     &&& forall|i: int| 0 <= i < es.len() ==> m.dom().contains(knum((#[trigger] es[i]).layer)) && exists|q: int| 0 <= q < m[knum(es[i].layer)]@.len() && (#[trigger] m[knum(es[i].layer)]@[q]).idx == i
 }
+/// the instance list of a structure: one instance per SREF, all the placements of each AREF, in element order, nothing else
+pub open spec fn insts_are(is: Seq<Instance>, es: Seq<gds21::GdsElement>, m: CellMap) -> bool decreases es.len() {
+    if es.len() == 0 { is.len() == 0 } else {
+        match es.last() {
+            gds21::GdsElement::GdsStructRef(x) => is.len() >= 1 && insts_are(is.drop_last(), es.drop_last(), m) && sref_imp(is.last(), x, m),
+            gds21::GdsElement::GdsArrayRef(x) => exists|n: int| 0 <= n <= is.len() && insts_are(is.take(is.len() - n), es.drop_last(), m) && #[trigger] aref_imp(is.skip(is.len() - n), x, m),
+            _ => insts_are(is, es.drop_last(), m),
+        }
+    }
+}
 /// pass 1: one raw element per geometry element, in order, without nets
 pub open spec fn pass1(es: Seq<Element>, gs: Seq<gds21::GdsElement>) -> bool { es.len() == gs.len() && forall|i: int| 0 <= i < gs.len() ==> geom_imp(#[trigger] es[i], gs[i]) }
 pub open spec fn elem_small(e: Element) -> bool { match e.inner { Shape::Polygon(p) => all_small(p.points@) && p.points.len() < 0x7fff_ffff_ffff_ffff, _ => true } }
@@ -141,6 +151,8 @@ impl GdsImporter {
 //|         r is Ok ==> ({
 //|             let l = r->Ok_0; let gs = geoms(strukt.elems@); let ts = texts_of(strukt.elems@);
 //|             &&& final(self).ctx@ == old(self).ctx@ &&& l.name@ == strukt.name@
+//|             // one instance per structure reference, every placement of every array reference, in element order
+//|             &&& insts_are(l.insts@, strukt.elems@, old(self).cell_map)
 //|             // no boundary, box or path is dropped: one raw element per geometry element, in order ...
 //|             &&& l.elems@.len() == gs.len()
 //|             &&& exists|e0: Seq<Element>| #[trigger] pass1(e0, gs) && forall|i: int| 0 <= i < gs.len() ==>
@@ -154,19 +166,30 @@ impl GdsImporter {
 //|             invariant obeys_key_model::<i16>(), self.cell_map == old(self).cell_map, self.ctx@ == old(self).ctx@.push(ErrorContext::Impl),
 //|                 layout.name@ == strukt.name@, layout.elems@.len() == 0, layout.annotations@.len() == 0, it.index@ <= strukt.elems@.len(),
 //|                 pass1(elems.v@, geoms(strukt.elems@.take(it.index@ as int))), elems_small(elems.v@),
+//|                 insts_are(layout.insts@, strukt.elems@.take(it.index@ as int), self.cell_map),
 //|                 texts_are(texts@, texts_of(strukt.elems@.take(it.index@ as int))),
 //|                 buckets_ok(layers@, elems.v@),
 //|                 forall|k: int| 0 <= k < strukt.elems@.len() && (#[trigger] strukt.elems@[k]) is GdsBoundary ==> strukt.elems@[k]->GdsBoundary_0.xy@.len() < 0x7fff_ffff_ffff_ffff,
 //@   before /use gds21::GdsElement::\*;/
-//|             let ghost ev0 = elems.v@; let ghost tx0 = texts@; let ghost lm0 = layers@;
+//|             let ghost ev0 = elems.v@; let ghost tx0 = texts@; let ghost lm0 = layers@; let ghost is0 = layout.insts@; let ghost mut iv: Seq<Instance> = Seq::empty();
 //|             proof { assert(strukt.elems@.take(it.index@ + 1).drop_last() == strukt.elems@.take(it.index@ as int)); assert(strukt.elems@.take(it.index@ + 1).last() == *elem); }
+//@   before /vp_extend_insts\(&mut layout\.insts, insts\);/
+//|                         proof { iv = insts@; assert(aref_imp(iv, elem->GdsArrayRef_0, self.cell_map)); }
 //@   before /let ekey = elems\.insert\(e\);/
 //|                 let ghost enew = e;
 //|                 proof { assert(*elem == strukt.elems@[it.index@ as int]); assert(geom_imp(enew, *elem)); }
 //@   after /vp_bucket_push\(&mut layers, layernum, ekey\);/
 //|                 proof { lemma_bucket_push(lm0, layers@, ev0, enew, layernum, ekey); lemma_geom_small(enew, *elem); }
+//@   loopend 1
+//|             proof {
+//|                 let t1 = strukt.elems@.take(it.index@ + 1); let is1 = layout.insts@;
+//|                 if *elem is GdsStructRef { assert(is1.drop_last() =~= is0); }
+//|                 else if *elem is GdsArrayRef { let n = is1.len() - is0.len(); assert(is1.take(is1.len() - n) =~= is0); assert(is1.skip(is1.len() - n) =~= iv); assert(aref_imp(is1.skip(is1.len() - n), elem->GdsArrayRef_0, self.cell_map)); }
+//|                 else { assert(is1 == is0); }
+//|                 assert(insts_are(is1, t1, self.cell_map));
+//|             }
 //@   before /let mut vp_t: usize = 0;/
-//|         let ghost e0 = elems.v@; let ghost gs = geoms(strukt.elems@); let ghost ts = texts_of(strukt.elems@);
+//|         let ghost e0 = elems.v@; let ghost insts1 = layout.insts@; let ghost gs = geoms(strukt.elems@); let ghost ts = texts_of(strukt.elems@);
 //|         proof {
 //|             assert(strukt.elems@.take(strukt.elems@.len() as int) == strukt.elems@);
 //|             assert forall|i: int| 0 <= i < e0.len() implies elem_done(#[trigger] elems.v@[i], e0[i], ts.take(0)) by { assert(ts.take(0) =~= Seq::<gds21::GdsTextElem>::empty()); lemma_pass1_no_net(e0, gs, i); }
@@ -174,7 +197,7 @@ impl GdsImporter {
 //|         }
 //@   loop 2
 //|             invariant obeys_key_model::<i16>(), self.cell_map == old(self).cell_map, self.ctx@ == old(self).ctx@.push(ErrorContext::Impl), layout.name@ == strukt.name@, layout.elems@.len() == 0,
-//|                 vp_t <= texts@.len(), texts_are(texts@, ts), pass1(e0, gs), elems_small(e0), buckets_ok(layers@, e0), elems.v@.len() == e0.len(), e0.len() == gs.len(),
+//|                 layout.insts@ == insts1, vp_t <= texts@.len(), texts_are(texts@, ts), pass1(e0, gs), elems_small(e0), buckets_ok(layers@, e0), elems.v@.len() == e0.len(), e0.len() == gs.len(),
 //|                 forall|i: int| 0 <= i < e0.len() ==> elem_done(#[trigger] elems.v@[i], e0[i], ts.take(vp_t as int)),
 //|                 layout.annotations@.len() == annots(e0, ts.take(vp_t as int)).len(),
 //|                 forall|k: int| 0 <= k < layout.annotations@.len() ==> annot_is(#[trigger] layout.annotations@[k], annots(e0, ts.take(vp_t as int))[k]),
@@ -184,7 +207,7 @@ impl GdsImporter {
 //|             proof { assert(**textelem == t); assert(ts.take(j + 1).drop_last() == ts.take(j)); assert(ts.take(j + 1).last() == t); }
 //@   loop 3 iter it3
 //|                 invariant elems.v@.len() == e0.len(), loc == tpt(t), **textelem == t, j == vp_t as int - 1, 0 <= j < ts.len(), elems_small(e0), it3.index@ <= layer@.len(),
-//|                     layers@.dom().contains(t.layer) && *layer == layers@[t.layer], buckets_ok(layers@, e0), layout.annotations@ == an1, ts[j] == t,
+//|                     layers@.dom().contains(t.layer) && *layer == layers@[t.layer], buckets_ok(layers@, e0), layout.annotations@ == an1, ts[j] == t, layout.insts@ == insts1,
 //|                     self.cell_map == old(self).cell_map, self.ctx@ == old(self).ctx@.push(ErrorContext::Impl), layout.name@ == strukt.name@, layout.elems@.len() == 0,
 //|                     hit == (exists|q: int| 0 <= q < it3.index@ && lhit(e0[(#[trigger] layer@[q]).idx as int], t)),
 //|                     forall|i: int| 0 <= i < e0.len() ==> elem_done(#[trigger] elems.v@[i], e0[i], if visited(layer@, it3.index@ as int, i) { ts.take(j + 1) } else { ts.take(j) }),
@@ -216,11 +239,11 @@ impl GdsImporter {
 //|                             if lhit(e0[ix], t) { assert(lhit(e0[layer@[n].idx as int], t)); }
 //|                         }
 //|                     }
-//@   before /If we've hit at least one, carry onto the next TextElement/
+//@   before1 /If we've hit at least one, carry onto the next TextElement|^                if hit \{/
 //|                 proof { lemma_after_bucket(e0, elems.v@, layers@, ts, j, t, hit); }
-//@   before /No hits \(or a no-shape Layer\)\. Create an annotation instead\./
+//@   before1 /No hits \(or a no-shape Layer\)\. Create an annotation instead\.|^            layout\.annotations\.push\(TextElement \{/
 //|             proof { lemma_no_hit(e0, elems.v@, layers@, ts, j, t); }
-//@   before /Pull the elements out of the local slot-map/
+//@   before1 /Pull the elements out of the local slot-map|layout\.elems = elems\./
 //|         proof { assert(ts.take(ts.len() as int) == ts); assert(texts@.len() == ts.len()); }
 //@   before /^        Ok\(layout\)$/
 //|         proof { assert(self.ctx@ =~= old(self).ctx@); assert(pass1(e0, gs)); }
@@ -304,6 +327,7 @@ proof fn lemma_no_hit(e0: Seq<Element>, ev: Seq<Element>, m: Map<i16, Vec<Elemen
         assert(net_after(e0[i], ts.take(j + 1)) == net_after(e0[i], ts.take(j)));
     }
 }
+proof fn canary_insts(is: Seq<Instance>, es: Seq<gds21::GdsElement>, m: CellMap) requires insts_are(is, es, m), es.len() == 2, es[0] is GdsStructRef, es[1] is GdsArrayRef, is.len() == 5 ensures false {}
 proof fn canary_slots(s: ElemSlots) requires s.v@.len() == 2 ensures false {}
 }
 fn main() {}
